@@ -789,6 +789,29 @@ func (c *c44ctx) corruptEnvelope(vc *vcase, rng *kernel.RNG, pub keypair.PublicK
 		run.Fault("inner_payload_damaged")
 		try(fmt.Sprintf("%s inner#%d", kind, j), mustJSON(&mEnvelope{Type: uint8(vc.typ), Len: uint32(len(p)), Payload: p}))
 	}
+	// the signature count of the first transaction of a carried block set to boundary values
+	if pb, isP := vc.model.(*mProposalBlock); isP && len(pb.Blk.Txs) > 0 {
+		for _, v := range []uint64{0, 0x10000, 1 << 46, 1 << 63, ^uint64(0)} {
+			bw := &refW{}
+			pb.Blk.H.enc(bw, nil)
+			bw.u32(uint32(len(pb.Blk.Txs)))
+			pb.Blk.Txs[0].enc(bw, &ovr{field: "tx.nsigs", val: v})
+			for _, t := range pb.Blk.Txs[1:] {
+				t.enc(bw, nil)
+			}
+			w := &refW{}
+			if vc.typ == vtBlockFetchResp {
+				w.u32(vc.fetchNum)
+				w.raw(vc.fetchH[:])
+			}
+			w.varbytes(bw.b)
+			run.Fault("carried_block_count_corrupted")
+			if v >= dangerHi {
+				run.Probe("carried_block_count_huge")
+			}
+			try(fmt.Sprintf("%s tx0 nsigs=%#x", kind, v), mustJSON(&mEnvelope{Type: uint8(vc.typ), Len: uint32(len(w.b)), Payload: w.b}))
+		}
+	}
 	// len / type manipulation
 	L := uint32(len(vc.payload))
 	for _, l2 := range []uint32{0, L - 1, L + 1, L / 2, 0xFFFFFFFF} {
